@@ -73,6 +73,11 @@ pub struct Stats {
     /// first generated case (used as sample when no non-trivial sample was recorded)
     pub first_case: Option<Value>,
     pub frozen: bool,
+    /// after a failure: the generated cases that preceded it in this worker, ending with the
+    /// failing one as generated (not shrunk). Used when a failure depends on state that the
+    /// library keeps between calls and therefore does not reproduce from the single case.
+    #[serde(default)]
+    pub failure_history: Vec<Value>,
 }
 
 impl Stats {
@@ -156,6 +161,13 @@ pub trait Property: Sync + Send {
         vec![]
     }
     /// extra keys for the coverage object
+    /// Deterministic sweeps that are run one per fresh process (large ontologies; a crash of the
+    /// library - stack overflow, abort - then ends that process only). Each value is a case
+    /// understood by `replay`.
+    fn isolated_plans(&self, _tier: Tier, _seed: u64) -> Vec<Value> {
+        Vec::new()
+    }
+
     fn coverage_extra(&self, _tier: Tier, _stats: &Stats) -> BTreeMap<String, Value> {
         BTreeMap::new()
     }
@@ -202,13 +214,20 @@ where
         ..Config::default()
     };
     let mut runner = TestRunner::new(config);
+    let cases_before = stats.cases;
     let st = RefCell::new(std::mem::take(stats));
     let failed = Cell::new(false);
     // failures listed as known findings do not end the search (they are counted and reported
     // once by the parent): otherwise every campaign would stop at the first known failure
     let known = KnownFindings::load(&verif_root().join("KNOWN_FINDINGS.txt"));
     let prop_id = CURRENT_PROP.lock().unwrap().clone();
+    // set by the parent when this worker died in an earlier attempt: every case is written out
+    // before it is checked, so that the case that kills the process is known afterwards
+    let trace = std::env::var_os("VERIF_TRACE_FILE").map(PathBuf::from);
     let result = runner.run(&strategy, |c| {
+        if let Some(t) = &trace {
+            let _ = std::fs::write(t, serde_json::to_string(&c).unwrap_or_default());
+        }
         let mut s = st.borrow_mut();
         if failed.get() {
             s.frozen = true;
@@ -233,6 +252,30 @@ where
     });
     *stats = st.into_inner();
     stats.frozen = false;
+    if matches!(result, Err(TestError::Fail(..))) {
+        // generation is a pure function of the seed: re-generate (without checking) the cases up
+        // to the first failing one and keep the last HISTORY_LEN of them
+        let upto = stats.cases - cases_before;
+        let hist: RefCell<std::collections::VecDeque<Value>> = RefCell::new(std::collections::VecDeque::new());
+        let mut regen = TestRunner::new(Config {
+            cases: upto.min(u64::from(u32::MAX)) as u32,
+            failure_persistence: None,
+            rng_seed: RngSeed::Fixed(seed),
+            max_shrink_iters: 0,
+            max_global_rejects: 1_000_000,
+            verbose: 0,
+            ..Config::default()
+        });
+        let _ = regen.run(&strategy, |c| {
+            let mut h = hist.borrow_mut();
+            h.push_back(serde_json::to_value(&c).unwrap_or(Value::Null));
+            if h.len() > HISTORY_LEN {
+                h.pop_front();
+            }
+            Ok(())
+        });
+        stats.failure_history = hist.into_inner().into_iter().collect();
+    }
     match result {
         Ok(()) => None,
         Err(TestError::Fail(_, value)) => {
@@ -265,6 +308,9 @@ where
         )),
     }
 }
+
+/// How many preceding cases a worker hands over with a failure.
+pub const HISTORY_LEN: usize = 48;
 
 pub fn replay_typed<C, F>(case: &Value, stats: &mut Stats, check: F) -> Result<CheckResult, String>
 where
@@ -397,7 +443,7 @@ pub fn run_property(p: &dyn Property, tier: Tier, seed: u64) -> RunOutcome {
             };
             let case = doc.get("case").cloned().unwrap_or(doc);
             replayed += 1;
-            match p.replay(&case, &mut total) {
+            match replay_case(p, &case, &mut total) {
                 Ok(Ok(())) => {}
                 Ok(Err(fl)) => failures.push((case, fl, format!("replay:{}", f.display()))),
                 Err(e) => {
@@ -413,6 +459,8 @@ pub fn run_property(p: &dyn Property, tier: Tier, seed: u64) -> RunOutcome {
     for (case, fl) in p.extra(tier, seed, &mut total) {
         failures.push((case, fl, "sweep".into()));
     }
+    let plans = p.isolated_plans(tier, seed);
+    let plan_children: Vec<(Value, Option<std::process::Child>)> = plans.into_iter().map(|c| { let ch = spawn_isolated(p, &c); (c, ch) }).collect();
 
     // 3. generated cases: one proptest runner per worker. Workers are separate
     //    processes (the library allocates and frees an 80 MB id table per
@@ -425,11 +473,29 @@ pub fn run_property(p: &dyn Property, tier: Tier, seed: u64) -> RunOutcome {
     } else {
         run_workers_as_processes(p, tier, seed, threads, per)
     };
+    // the isolated sweeps ran beside the workers
+    for (case, child) in plan_children {
+        match child.map(wait_isolated) {
+            Some(Iso::Done(st, None)) => total.merge(st),
+            Some(Iso::Done(st, Some(fl))) => {
+                total.merge(st);
+                failures.push((case, fl, "sweep".into()));
+            }
+            Some(Iso::Crash(status)) => failures.push((case, Failure { signature: "crash/sweep".into(), message: format!("the process running this sweep ended with {status}") }, "sweep".into())),
+            _ => failures.push((case, Failure { signature: "harness/sweep".into(), message: "cannot run the sweep in a child process".into() }, "sweep".into())),
+        }
+    }
+
     let mut workers_failed = 0u64;
-    for (st, r) in results {
+    let mut histories: BTreeMap<String, Vec<Value>> = BTreeMap::new();
+    for (mut st, r) in results {
+        let hist = std::mem::take(&mut st.failure_history);
         total.merge(st);
         if let Some((case, fl)) = r {
             workers_failed += 1;
+            if !hist.is_empty() {
+                histories.entry(fl.signature.clone()).or_insert(hist);
+            }
             failures.push((case, fl, "generated".into()));
         }
     }
@@ -448,6 +514,12 @@ pub fn run_property(p: &dyn Property, tier: Tier, seed: u64) -> RunOutcome {
     failures.sort_by_key(|(case, fl, _)| (fl.signature.clone(), serde_json::to_string(case).map(|s| s.len()).unwrap_or(0)));
     failures.dedup_by(|b, a| a.1.signature == b.1.signature);
     for (case, fl, origin) in &failures {
+        if fl.signature.starts_with("flaky/") {
+            if let Some((hcase, hfl)) = histories.get(&fl.signature).and_then(|h| confirm_history(p, h)) {
+                report_history_violation(p, &hcase, &hfl, &mut seen, &mut violations);
+                continue;
+            }
+        }
         if fl.signature.starts_with("harness/") || fl.signature.starts_with("flaky/") {
             eprintln!("INCONCLUSIVE {}: {} ({origin})", fl.signature, fl.message);
             harness_errors += 1;
@@ -459,16 +531,42 @@ pub fn run_property(p: &dyn Property, tier: Tier, seed: u64) -> RunOutcome {
             }
             continue;
         }
+        // a failure that killed its process is confirmed in fresh processes only (twice)
+        if fl.signature.starts_with("crash/") {
+            let again = |c: &Value| matches!(spawn_isolated(p, c).map(wait_isolated), Some(Iso::Crash(_)));
+            if !case.is_null() && again(case) && again(case) {
+                let path = write_violation(p.id(), case, fl);
+                if seen.insert(format!("{}", path.display())) {
+                    violations += 1;
+                    println!("VIOLATION property={} replay={}", p.id(), path.display());
+                    println!("  signature: {}", fl.signature);
+                    println!("  origin:    {origin} (the library ends the process on this in-domain input; reproduced in two fresh processes with a 256 MB stack)");
+                    println!("  message:   {}", fl.message);
+                }
+            } else {
+                eprintln!("INCONCLUSIVE: {} ({origin}): {} - not reproduced from the single case", fl.signature, fl.message);
+                harness_errors += 1;
+            }
+            continue;
+        }
         // confirm through the plain replay path before reporting
         let mut scratch = Stats::default();
         let mut confirmed = false;
         for _ in 0..REPLAY_RETRIES {
-            match p.replay(case, &mut scratch) {
+            match replay_case(p, case, &mut scratch) {
                 Ok(Ok(())) => {}
                 _ => {
                     confirmed = true;
                     break;
                 }
+            }
+        }
+        if !confirmed {
+            // the failure may depend on what the library remembers from earlier calls: replay
+            // the worker's preceding cases, in order, in a fresh process
+            if let Some((hcase, hfl)) = histories.get(&fl.signature).and_then(|h| confirm_history(p, h)) {
+                report_history_violation(p, &hcase, &hfl, &mut seen, &mut violations);
+                continue;
             }
         }
         if !confirmed {
@@ -574,6 +672,151 @@ pub fn run_property(p: &dyn Property, tier: Tier, seed: u64) -> RunOutcome {
         return RunOutcome { exit: 2 };
     }
     RunOutcome { exit: 0 }
+}
+
+pub enum Iso {
+    /// the child ran the case: its statistics and the failure, if any
+    Done(Stats, Option<Failure>),
+    /// the child was ended by a signal / abort
+    Crash(String),
+    Unreadable,
+}
+
+/// Starts `hpo_verif --plan <ID> <file>`: one case replayed in a fresh process on a 256 MB stack.
+fn spawn_isolated(p: &dyn Property, case: &Value) -> Option<std::process::Child> {
+    use std::sync::atomic::{AtomicU64, Ordering};
+    static N: AtomicU64 = AtomicU64::new(0);
+    let dir = verif_root().join("out").join("tmp");
+    std::fs::create_dir_all(&dir).ok()?;
+    let file = dir.join(format!("plan-{}-{}-{}.json", p.id(), std::process::id(), N.fetch_add(1, Ordering::Relaxed)));
+    std::fs::write(&file, serde_json::to_string(case).ok()?).ok()?;
+    std::process::Command::new(std::env::current_exe().ok()?)
+        .args(["--plan", p.id()])
+        .arg(&file)
+        .stdin(std::process::Stdio::null())
+        .stdout(std::process::Stdio::piped())
+        .stderr(std::process::Stdio::null())
+        .spawn()
+        .ok()
+}
+
+fn wait_isolated(child: std::process::Child) -> Iso {
+    match child.wait_with_output() {
+        Ok(out) if out.status.success() => {
+            let text = String::from_utf8_lossy(&out.stdout);
+            match text.lines().rev().find(|l| l.starts_with('{')).map(serde_json::from_str::<WorkerOut>) {
+                Some(Ok(w)) => Iso::Done(w.stats, w.failure.map(|(_, signature, message)| Failure { signature, message })),
+                _ => Iso::Unreadable,
+            }
+        }
+        Ok(out) => Iso::Crash(format!("{}", out.status)),
+        Err(_) => Iso::Unreadable,
+    }
+}
+
+/// Entry point of `hpo_verif --plan <ID> <file>`.
+pub fn plan_main(p: &dyn Property, file: &Path) -> i32 {
+    set_current_prop(p.id());
+    let case: Value = match std::fs::read_to_string(file).ok().and_then(|t| serde_json::from_str(&t).ok()) {
+        Some(c) => c,
+        None => return 2,
+    };
+    let _ = std::fs::remove_file(file);
+    let out = std::thread::scope(|sc| {
+        std::thread::Builder::new()
+            .stack_size(256 << 20)
+            .spawn_scoped(sc, || {
+                let mut st = Stats::default();
+                let r = replay_case(p, &case, &mut st);
+                (st, r)
+            })
+            .expect("spawn")
+            .join()
+    });
+    let out = match out {
+        Ok((stats, Ok(r))) => WorkerOut { stats, failure: r.err().map(|f| (Value::Null, f.signature, f.message)) },
+        Ok((stats, Err(e))) => WorkerOut { stats, failure: Some((Value::Null, "harness/plan".into(), e)) },
+        Err(_) => WorkerOut { stats: Stats::default(), failure: Some((Value::Null, "harness/thread-panic".into(), "plan thread panicked".into())) },
+    };
+    println!("{}", serde_json::to_string(&out).unwrap());
+    0
+}
+
+fn report_history_violation(p: &dyn Property, case: &Value, fl: &Failure, seen: &mut BTreeSet<String>, violations: &mut u64) {
+    let path = write_violation(p.id(), case, fl);
+    if seen.insert(format!("{}", path.display())) {
+        *violations += 1;
+        println!("VIOLATION property={} replay={}", p.id(), path.display());
+        println!("  signature: {}", fl.signature);
+        println!("  origin:    generated (fails only after the preceding calls of the same process: {} cases in the replay file)", case.get("history").and_then(|h| h.as_array()).map_or(0, |a| a.len()));
+        let msg: String = fl.message.chars().take(1500).collect();
+        println!("  message:   {msg}");
+    }
+}
+
+/// Replays `history` (cases in order) in a fresh process. Returns the failure when one occurs.
+fn history_fails(p: &dyn Property, history: &[Value]) -> Option<Failure> {
+    let dir = verif_root().join("out").join("tmp");
+    std::fs::create_dir_all(&dir).ok()?;
+    let file = dir.join(format!("history-{}-{}.json", p.id(), std::process::id()));
+    let doc = serde_json::json!({"property": p.id(), "case": {"history": history}});
+    std::fs::write(&file, serde_json::to_string(&doc).ok()?).ok()?;
+    let out = std::process::Command::new(std::env::current_exe().ok()?).arg("--replay").arg(&file).stdin(std::process::Stdio::null()).output().ok()?;
+    let _ = std::fs::remove_file(&file);
+    if out.status.code() != Some(1) {
+        return None;
+    }
+    let text = String::from_utf8_lossy(&out.stdout);
+    let grab = |key: &str| text.lines().find_map(|l| l.trim_start().strip_prefix(key).map(|r| r.trim().to_string())).unwrap_or_default();
+    Some(Failure { signature: grab("signature:"), message: grab("message:") })
+}
+
+/// Confirms a history in a fresh process and shortens it (suffixes, then single removals) under a
+/// fixed budget of attempts. Returns the replay case `{"history": [...]}` and its failure.
+fn confirm_history(p: &dyn Property, history: &[Value]) -> Option<(Value, Failure)> {
+    let mut fl = history_fails(p, history)?;
+    let mut cur: Vec<Value> = history.to_vec();
+    let mut budget = 60;
+    // shortest failing suffix by doubling
+    let mut k = 1;
+    while k < cur.len() && budget > 0 {
+        budget -= 1;
+        if let Some(f) = history_fails(p, &cur[cur.len() - k..]) {
+            cur = cur[cur.len() - k..].to_vec();
+            fl = f;
+            break;
+        }
+        k *= 2;
+    }
+    // drop single elements (never the last one)
+    let mut i = 0;
+    while i + 1 < cur.len() && budget > 0 {
+        budget -= 1;
+        let mut t = cur.clone();
+        t.remove(i);
+        if let Some(f) = history_fails(p, &t) {
+            cur = t;
+            fl = f;
+        } else {
+            i += 1;
+        }
+    }
+    Some((serde_json::json!({"history": cur}), fl))
+}
+
+/// Replays one case; a case of the form `{"history": [c1, .., cn]}` is a sequence of cases replayed
+/// in order on one thread (for failures that depend on earlier calls).
+pub fn replay_case(p: &dyn Property, case: &Value, st: &mut Stats) -> Result<CheckResult, String> {
+    if let Some(h) = case.get("history").and_then(|h| h.as_array()) {
+        for c in h {
+            match p.replay(c, st)? {
+                Ok(()) => {}
+                Err(f) => return Ok(Err(f)),
+            }
+        }
+        return Ok(Ok(()));
+    }
+    p.replay(case, st)
 }
 
 fn run_workers_in_threads(p: &dyn Property, tier: Tier, seed: u64, threads: u64, per: u64) -> Vec<(Stats, Option<(Value, Failure)>)> {
@@ -703,7 +946,29 @@ fn run_workers_as_processes(p: &dyn Property, tier: Tier, seed: u64, threads: u6
                     _ => res.push(harness(format!("worker {t}: unreadable output"))),
                 }
             }
-            Ok(out) => res.push(harness(format!("worker {t} ended with {}", out.status))),
+            Ok(out) => {
+                // the worker was ended by a signal (stack overflow, abort): run it once more with a
+                // trace file to learn which case does it
+                let dir = verif_root().join("out").join("tmp");
+                let _ = std::fs::create_dir_all(&dir);
+                let trace = dir.join(format!("trace-{}-{}-{t}.json", p.id(), std::process::id()));
+                let again = std::process::Command::new(&exe)
+                    .args(["--worker", p.id(), tier.name(), &seed.to_string(), &t.to_string(), &per.to_string()])
+                    .env("VERIF_TRACE_FILE", &trace)
+                    .stdin(std::process::Stdio::null())
+                    .stdout(std::process::Stdio::null())
+                    .stderr(std::process::Stdio::null())
+                    .status();
+                let case = std::fs::read_to_string(&trace).ok().and_then(|t| serde_json::from_str::<Value>(&t).ok());
+                let _ = std::fs::remove_file(&trace);
+                match (again, case) {
+                    (Ok(st), Some(case)) if !st.success() => res.push((
+                        Stats::default(),
+                        Some((case, Failure { signature: "crash/generated".into(), message: format!("worker {t} ended with {} (twice); the case it was checking is in the replay file", out.status) })),
+                    )),
+                    _ => res.push(harness(format!("worker {t} ended with {} (not again with a trace file)", out.status))),
+                }
+            }
             Err(e) => res.push(harness(format!("worker {t}: {e}"))),
         }
     }
@@ -729,14 +994,25 @@ pub fn replay_file(props: &[Box<dyn Property>], path: &Path) -> i32 {
         return 2;
     };
     let case = doc.get("case").cloned().unwrap_or(Value::Null);
-    let mut st = Stats::default();
-    let mut res = p.replay(&case, &mut st);
-    for _ in 1..REPLAY_RETRIES {
-        if !matches!(res, Ok(Ok(()))) {
-            break;
-        }
-        res = p.replay(&case, &mut st);
-    }
+    // same stack size as the workers (the library recurses along is_a chains)
+    let res = std::thread::scope(|sc| {
+        std::thread::Builder::new()
+            .stack_size(256 << 20)
+            .spawn_scoped(sc, || {
+                let mut st = Stats::default();
+                let mut res = replay_case(p.as_ref(), &case, &mut st);
+                for _ in 1..REPLAY_RETRIES {
+                    if !matches!(res, Ok(Ok(()))) || case.get("history").is_some() {
+                        break;
+                    }
+                    res = replay_case(p.as_ref(), &case, &mut st);
+                }
+                res
+            })
+            .expect("spawn")
+            .join()
+            .unwrap_or_else(|_| Err("replay thread panicked".into()))
+    });
     match res {
         Ok(Ok(())) => {
             println!("replay {}: property {} holds on this case", path.display(), pid);
